@@ -17,7 +17,7 @@ import tempfile
 
 from common import Model
 
-CLS = {"ValueError": 0, "Opaque": 1, "NonMemoizedException": 2, "UndeclaredDependencyError": 7, "RuntimeError": 8,
+CLS = {"Coded": 5, "ValueError": 0, "Opaque": 1, "NonMemoizedException": 2, "UndeclaredDependencyError": 7, "RuntimeError": 8,
        "MementoException": 9}
 
 
@@ -72,13 +72,15 @@ def msg_text(msg):
 
 
 def msg_of(e):
-    m = re.search(r"zq(\d+)zq", str(e))
+    # (the message proper: a replayed exception appends the original stack trace, which quotes the original text too)
+    text = str(e).split(". Original stack trace follows")[0]
+    m = re.search(r"zq(\d+)zq", text)
     if not m:
         return 0
     n = int(m.group(1))
     # the text after the marker must be the original one (a replayed exception may append its stack-trace note)
     tail = MSG_TAILS[n % len(MSG_TAILS)]
-    rest = str(e)[m.end():]
+    rest = text[m.end():]
     # (an exception with several arguments prints the repr of its argument tuple: the text appears in its escaped form)
     if not (rest.startswith(tail) or rest.startswith(repr(tail)[1:-1])):
         return 990000 + n
@@ -132,7 +134,7 @@ def gen_program(rng, nfns=None, ctx_rate=0.25, exc_rate=0.3, batch_rate=0.25, hi
                     stmts.append(["res", rng.randint(1, 3)])
         rs = [0, 0, 0, 0]
         if rng.random() < exc_rate:
-            rs = [rng.choice([2, 3]), rng.choice([0, 1]), rng.choice([0, 0, 1, 2, 3, 4]), rng.randint(1, 9)]
+            rs = [rng.choice([2, 3]), rng.choice([0, 1]), rng.choice([0, 0, 1, 2, 3, 4, 5]), rng.randint(1, 9)]
         fns[f] = dict(explicit=rng.random() < 0.15, stmts=stmts, const=rng.randint(0, 9))
         fns[f]["raise"] = rs
     return dict(fns=fns)
@@ -214,6 +216,12 @@ def render(prog, modname):
          "class NmSub(NonMemoizedException):",
          "    pass",
          "",
+         "class Coded(Exception):",
+         "    # an exception whose text is not its argument: raised with a code, it prints the message the code stands for",
+         "    def __str__(self):",
+         "        a = str(self.args[0]) if self.args else ''",
+         "        return progs.msg_text(int(a)) if a.isdigit() else a",
+         "",
          "@resource_function(resource_type='vres')        # (the documented way: the type is registered with the library)",
          "def vres(url):",
          "    return ResourceHandle('vres', url, '1')",
@@ -252,7 +260,7 @@ def render(prog, modname):
         if m:
             t = repr(msg_text(msg))
             exc = {0: 'ValueError(%s)' % t, 1: 'Opaque(%s, 1)' % t, 2: '%s(%s)' % ("NmSub" if msg % 2 else "NonMemoizedException", t),
-                   3: 'shutil.Error(%s)' % t, 4: 'configparser.Error(%s)' % t}[cls]
+                   3: 'shutil.Error(%s)' % t, 4: 'configparser.Error(%s)' % t, 5: 'Coded("%d")' % msg}[cls]
             L += ["    if a >= 0 and a %% %d == %d:" % (m, r), "        raise %s" % exc]
         L.append("    return s + %d + 10 * a" % d["const"])      # the value depends on the argument
         L.append("")
